@@ -138,7 +138,18 @@ def main(argv):
                     p.add_node(0.125, 1.0, cond=0)
                     p.circprops[0]["V"] = 25.0
             if kind == "m":
-                keep_lam = rng.random() < 0.5
+                stats["magnetics_seen"] = stats.get("magnetics_seen", 0) + 1
+                keep_lam = (rng.random() < 0.5) or True if stats["magnetics_seen"] % 2 == 1 else False      # every other one, whatever the draw
+                # every magnetostatic problem that keeps laminations has an iron laminated ON EDGE in each of the two directions (linear, fill
+                # below one, permeability well above one, used by a region): the stored energy of such a block against half of A.J is the only
+                # place where the post-processor's pairing of the two effective permeabilities with the axes shows
+                if keep_lam:
+                    usedb = [l_["block"] for l_ in p.labels if l_["block"] >= 0]
+                    for lt_, bi_ in zip((2, 1), usedb):
+                        m_ = p.blockprops[bi_]
+                        if not m_.get("BH"):
+                            m_["LamType"], m_["LamFill"] = lt_, rng.choice([0.5, 0.8])
+                            m_["Mu_x"] = max(m_.get("Mu_x", 1.0), 10.0)
                 # (decided per problem, not by the position in the plan: planar AND axisymmetric problems get solid conductors in circuits)
                 keep_sigma = (t // len(plan_base)) % 2 == 0        # (the quick tier has one repetition: it keeps them)
                 stats["conducting_magnetics_problems"] = stats.get("conducting_magnetics_problems", 0) + int(keep_sigma)
